@@ -5,6 +5,9 @@ import Ivy.Drv.Loop
 import Ivy.Drv.Select
 import Ivy.Drv.Inotify
 import Ivy.Drv.Popen
+import Ivy.Drv.Work
+import Ivy.Drv.Wait
+import Ivy.Drv.Event
 import Ivy.Drv.Signal
 import Ivy.Drv.Raw
 
@@ -17,6 +20,9 @@ def main (args : List String) : IO UInt32 := do
   | ["select"] => Ivy.Drv.Select.run; return 0
   | ["inotify"] => Ivy.Drv.Inotify.run; return 0
   | ["popen"] => Ivy.Drv.Popen.run; return 0
+  | ["work"] => Ivy.Drv.Work.run; return 0
+  | ["wait"] => Ivy.Drv.Wait.run; return 0
+  | ["event"] => Ivy.Drv.Event.run; return 0
   | ["signal"] => Ivy.Drv.Signal.run; return 0
   | ["raw"] => Ivy.Drv.Raw.run; return 0
   | _ => IO.eprintln "usage: ivyreplay <component>"; return 2
